@@ -4,14 +4,25 @@
      node/node_cmd_reg.go registerHandlers (write commands reaching the state machine), registerHandler (reads)
      node/hash.go node/set.go node/zset.go node/list.go node/keys.go  local*Command and read handlers
    (the numeric arguments are parsed as the handlers do: strconv.ParseInt / Atoi / ParseFloat).
+   Expiry: every collection record is stored with the ExpireAt second of its header (Exp.v); the write
+   handlers are wrapped by xrenew / xguard according to the Go function they go through, the reads see
+   the record through xview at the wall clock `now` of the serving node.
    The same command value is run by BOTH models (map_step / spec_step); the extracted driver prints
    the Map reply and flags any difference with the Spec reply.
    No proofs in this file. *)
 From ZV Require Export Data.Base.
+From ZV Require Export Data.Exp.
 From ZV Require Import Data.Consts Data.Map Data.Spec Data.MapZ Data.SpecZ Data.MapL Data.SpecL Data.MapK Data.SpecK.
 Open Scope Z_scope.
 
+Inductive ctype := TH | TS | TZ | TL.
+
 Inductive cmd :=
+(* hexpire sexpire zexpire lexpire / *persist / *ttl  (expire persist ttl of strings are in kcmd / kqry) *)
+| CExpire (t : ctype) (key : bytes) (dur : Z)
+| CPersist (t : ctype) (key : bytes)
+| QTtl (t : ctype) (key : bytes)
+| CTinvalid
 (* hash *)
 | CHset (nx : bool) (key f x : bytes)
 | CHmset (key : bytes) (fvs : list (bytes * bytes))
@@ -39,17 +50,17 @@ Inductive cmd :=
 
 (* ---------- states ---------- *)
 Record mstate := {
-  m_hash : list (bytes * hcoll);
-  m_set : list (bytes * scoll);
-  m_zset : list (bytes * zcoll);
-  m_list : list (bytes * lcoll);
+  m_hash : list (bytes * xr hcoll);
+  m_set : list (bytes * xr scoll);
+  m_zset : list (bytes * xr zcoll);
+  m_list : list (bytes * xr lcoll);
   m_kv : list (bytes * kvrec) }.
 Record sstate := {
-  s_hash : list (bytes * shash);
-  s_set : list (bytes * sset);
-  s_zset : list (bytes * szset);
-  s_list : list (bytes * slist);
-  s_kv : list (bytes * bytes) }.
+  s_hash : list (bytes * xr shash);
+  s_set : list (bytes * xr sset);
+  s_zset : list (bytes * xr szset);
+  s_list : list (bytes * xr slist);
+  s_kv : list (bytes * sval) }.
 Definition m_init : mstate := Build_mstate [] [] [] [] [].
 Definition s_init : sstate := Build_sstate [] [] [] [] [].
 
@@ -58,20 +69,69 @@ Definition alook {V} (d : V) (k : bytes) (m : list (bytes * V)) : V :=
 Definition aupd {V R} (d : V) (k : bytes) (f : V -> V * R) (m : list (bytes * V)) : list (bytes * V) * R :=
   let '(v', r) := f (alook d k m) in (aput bytes_eqb k v' m, r).
 
+(* ---------- records under an expired header ---------- *)
+(* renewOnExpired in memory: no user data (meta value), the element keys of the old generation stay *)
+Definition forget_c {V} (c : coll V) : coll V := Build_coll None (c_elems c).
+Definition live_z (z : zcoll) : bool := exists_coll (z_c z).
+Definition forget_z (z : zcoll) : zcoll := {| z_c := forget_c (z_c z); z_index := z_index z |}.
+Definition forget_l (l : lcoll) : lcoll := {| l_meta := None; l_elems := l_elems l |}.
+Definition x0 {R} (r : R) : xr R := Build_xr r 0.
+
+(* commands going through prepareCollKeyForWrite (the others read the header with GetCollVersionKey /
+   *HeaderMeta and return early on an expired one) *)
+Definition z_renews (c : zcmd) : bool := match c with ZCadd _ | ZCincrby _ _ => true | _ => false end.
+Definition l_renews (c : lcmd) : bool := match c with LCpush _ _ => true | _ => false end.
+
 (* ---------- one step of the Map model ---------- *)
-Definition map_step (compact : bool) (ts : Z) (c : cmd) (s : mstate) : mstate * reply :=
-  let H f key := let '(m, r) := aupd empty_coll key f (m_hash s) in
+Definition map_step (compact : bool) (now ts : Z) (c : cmd) (s : mstate) : mstate * reply :=
+  let H f key := let '(m, r) := aupd (x0 empty_coll) key f (m_hash s) in
                  (Build_mstate m (m_set s) (m_zset s) (m_list s) (m_kv s), r) in
-  let S f key := let '(m, r) := aupd empty_coll key f (m_set s) in
+  let S f key := let '(m, r) := aupd (x0 empty_coll) key f (m_set s) in
                  (Build_mstate (m_hash s) m (m_zset s) (m_list s) (m_kv s), r) in
-  let hq key (f : hcoll -> reply) := (s, f (alook empty_coll key (m_hash s))) in
-  let sq key (f : scoll -> reply) := (s, f (alook empty_coll key (m_set s))) in
+  let Z f key := let '(m, r) := aupd (x0 empty_zcoll) key f (m_zset s) in
+                 (Build_mstate (m_hash s) (m_set s) m (m_list s) (m_kv s), r) in
+  let L f key := let '(m, r) := aupd (x0 empty_lcoll) key f (m_list s) in
+                 (Build_mstate (m_hash s) (m_set s) (m_zset s) m (m_kv s), r) in
+  let hR (f : hcoll -> hcoll * reply) := xrenew exists_coll forget_c compact ts f in
+  let hG (f : hcoll -> hcoll * reply) := xguard exists_coll compact ts (snd (f empty_coll)) f in
+  let sR (f : scoll -> scoll * reply) := xrenew exists_coll forget_c compact ts f in
+  let sG (f : scoll -> scoll * reply) := xguard exists_coll compact ts (snd (f empty_coll)) f in
+  let hq key (f : hcoll -> reply) :=
+    (s, f (xview forget_c compact now (alook (x0 empty_coll) key (m_hash s)))) in
+  let sq key (f : scoll -> reply) :=
+    (s, f (xview forget_c compact now (alook (x0 empty_coll) key (m_set s)))) in
   match c with
-  | CHset nx key f x => H (Map.hset compact ts nx key f x) key
-  | CHmset key fvs => H (Map.hmset compact ts key fvs) key
-  | CHdel key fs => H (Map.hdel key fs) key
-  | CHincrby key f d => H (Map.hincrby compact ts key f d) key
-  | CHclear key => H (Map.hclear compact key) key
+  | CTinvalid => (s, RErr)
+  | CExpire t key dur =>
+      if negb (key_ok key) then (s, RErr)
+      else match t with
+           | TH => H (xexpire exists_coll compact ts dur) key
+           | TS => S (xexpire exists_coll compact ts dur) key
+           | TZ => Z (xexpire live_z compact ts dur) key
+           | TL => L (xexpire l_exists compact ts dur) key
+           end
+  | CPersist t key =>
+      if negb (key_ok key) then (s, RErr)
+      else match t with
+           | TH => H (xpersist exists_coll compact ts) key
+           | TS => S (xpersist exists_coll compact ts) key
+           | TZ => Z (xpersist live_z compact ts) key
+           | TL => L (xpersist l_exists compact ts) key
+           end
+  | QTtl t key =>
+      (* getRawValueForHeader drops the error of a malformed key: the meta value is then absent *)
+      if negb (key_ok key) then (s, RInt (-1))
+      else (s, match t with
+               | TH => xttl exists_coll compact now (alook (x0 empty_coll) key (m_hash s))
+               | TS => xttl exists_coll compact now (alook (x0 empty_coll) key (m_set s))
+               | TZ => xttl live_z compact now (alook (x0 empty_zcoll) key (m_zset s))
+               | TL => xttl l_exists compact now (alook (x0 empty_lcoll) key (m_list s))
+               end)
+  | CHset nx key f x => H (hR (Map.hset compact ts nx key f x)) key
+  | CHmset key fvs => H (hR (Map.hmset compact ts key fvs)) key
+  | CHdel key fs => H (hG (Map.hdel key fs)) key
+  | CHincrby key f d => H (hR (Map.hincrby compact ts key f d)) key
+  | CHclear key => H (hG (Map.hclear compact key)) key
   | QHlen key => hq key (Map.hlen key)
   | QHget key f => hq key (Map.hget key f)
   | QHexists key f => hq key (Map.hexists key f)
@@ -80,40 +140,75 @@ Definition map_step (compact : bool) (ts : Z) (c : cmd) (s : mstate) : mstate * 
   | QHkeys key => hq key (Map.hkeys key)
   | QHvals key => hq key (Map.hvals key)
   | QHkeyexist key => hq key (Map.hkeyexist key)
-  | CSadd key ms => S (Map.sadd compact ts key ms) key
-  | CSrem key ms => S (Map.srem key ms) key
-  | CSpop key n => S (Map.spop key n) key
-  | CSclear key => S (Map.sclear compact key) key
+  | CSadd key ms => S (sR (Map.sadd compact ts key ms)) key
+  | CSrem key ms => S (sG (Map.srem key ms)) key
+  | CSpop key n => S (sG (Map.spop key n)) key
+  | CSclear key => S (sG (Map.sclear compact key)) key
   | QScard key => sq key (Map.scard key)
   | QSismember key m => sq key (Map.sismember key m)
   | QSmembers key => sq key (Map.smembers key)
   | QSrandmember key n => sq key (Map.srandmember key n)
   | QSkeyexist key => sq key (Map.skeyexist key)
-  | CZ key zc => let '(m, r) := aupd empty_zcoll key (MapZ.zstep compact ts key zc) (m_zset s) in
-                 (Build_mstate (m_hash s) (m_set s) m (m_list s) (m_kv s), r)
-  | QZ key q => (s, MapZ.zquery key q (alook empty_zcoll key (m_zset s)))
-  | CL key lc => let '(m, r) := aupd empty_lcoll key (MapL.lstep compact ts key lc) (m_list s) in
-                 (Build_mstate (m_hash s) (m_set s) (m_zset s) m (m_kv s), r)
-  | QL key q => (s, MapL.lquery key q (alook empty_lcoll key (m_list s)))
-  | CK kc => let '(m, r) := MapK.kstep ts kc (m_kv s) in
+  | CZ key zc =>
+      let f := MapZ.zstep compact ts key zc in
+      Z (if z_renews zc then xrenew live_z forget_z compact ts f
+         else xguard live_z compact ts (snd (f empty_zcoll)) f) key
+  | QZ key q => (s, MapZ.zquery key q (xview forget_z compact now (alook (x0 empty_zcoll) key (m_zset s))))
+  | CL key lc =>
+      let f := MapL.lstep compact ts key lc in
+      L (if l_renews lc then xrenew l_exists forget_l compact ts f
+         else xguard l_exists compact ts (snd (f empty_lcoll)) f) key
+  | QL key q => (s, MapL.lquery key q (xview forget_l compact now (alook (x0 empty_lcoll) key (m_list s))))
+  | CK kc => let '(m, r) := MapK.kstep compact ts kc (m_kv s) in
              (Build_mstate (m_hash s) (m_set s) (m_zset s) (m_list s) m, r)
-  | QK q => (s, MapK.kquery q (m_kv s))
+  | QK q => (s, MapK.kquery compact now q (m_kv s))
   end.
 
 (* ---------- one step of the Spec model ---------- *)
-Definition spec_step (c : cmd) (s : sstate) : sstate * reply :=
-  let H f key := let '(m, r) := aupd [] key f (s_hash s) in
+Definition spec_step (compact : bool) (now ts : Z) (c : cmd) (s : sstate) : sstate * reply :=
+  let H f key := let '(m, r) := aupd (x0 []) key f (s_hash s) in
                  (Build_sstate m (s_set s) (s_zset s) (s_list s) (s_kv s), r) in
-  let S f key := let '(m, r) := aupd [] key f (s_set s) in
+  let S f key := let '(m, r) := aupd (x0 []) key f (s_set s) in
                  (Build_sstate (s_hash s) m (s_zset s) (s_list s) (s_kv s), r) in
-  let hq key (f : shash -> reply) := (s, f (alook [] key (s_hash s))) in
-  let sq key (f : sset -> reply) := (s, f (alook [] key (s_set s))) in
+  let Z f key := let '(m, r) := aupd (x0 []) key f (s_zset s) in
+                 (Build_sstate (s_hash s) (s_set s) m (s_list s) (s_kv s), r) in
+  let L f key := let '(m, r) := aupd (x0 []) key f (s_list s) in
+                 (Build_sstate (s_hash s) (s_set s) (s_zset s) m (s_kv s), r) in
+  let hW (f : shash -> shash * reply) := swrite compact ts f in
+  let sW (f : sset -> sset * reply) := swrite compact ts f in
+  let hq key (f : shash -> reply) := (s, f (sview compact now (alook (x0 []) key (s_hash s)))) in
+  let sq key (f : sset -> reply) := (s, f (sview compact now (alook (x0 []) key (s_set s)))) in
   match c with
-  | CHset nx key f x => H (Spec.hset nx key f x) key
-  | CHmset key fvs => H (Spec.hmset key fvs) key
-  | CHdel key fs => H (Spec.hdel key fs) key
-  | CHincrby key f d => H (Spec.hincrby key f d) key
-  | CHclear key => H (Spec.hclear key) key
+  | CTinvalid => (s, RErr)
+  | CExpire t key dur =>
+      if negb (key_ok key) then (s, RErr)
+      else match t with
+           | TH => H (sexpire compact ts dur) key
+           | TS => S (sexpire compact ts dur) key
+           | TZ => Z (sexpire compact ts dur) key
+           | TL => L (sexpire compact ts dur) key
+           end
+  | CPersist t key =>
+      if negb (key_ok key) then (s, RErr)
+      else match t with
+           | TH => H (spersist compact ts) key
+           | TS => S (spersist compact ts) key
+           | TZ => Z (spersist compact ts) key
+           | TL => L (spersist compact ts) key
+           end
+  | QTtl t key =>
+      if negb (key_ok key) then (s, RInt (-1))
+      else (s, match t with
+               | TH => sttl compact now (alook (x0 []) key (s_hash s))
+               | TS => sttl compact now (alook (x0 []) key (s_set s))
+               | TZ => sttl compact now (alook (x0 []) key (s_zset s))
+               | TL => sttl compact now (alook (x0 []) key (s_list s))
+               end)
+  | CHset nx key f x => H (hW (Spec.hset nx key f x)) key
+  | CHmset key fvs => H (hW (Spec.hmset key fvs)) key
+  | CHdel key fs => H (hW (Spec.hdel key fs)) key
+  | CHincrby key f d => H (hW (Spec.hincrby key f d)) key
+  | CHclear key => H (hW (Spec.hclear key)) key
   | QHlen key => hq key (Spec.hlen key)
   | QHget key f => hq key (Spec.hget key f)
   | QHexists key f => hq key (Spec.hexists key f)
@@ -122,24 +217,22 @@ Definition spec_step (c : cmd) (s : sstate) : sstate * reply :=
   | QHkeys key => hq key (Spec.hkeys key)
   | QHvals key => hq key (Spec.hvals key)
   | QHkeyexist key => hq key (Spec.hkeyexist key)
-  | CSadd key ms => S (Spec.sadd key ms) key
-  | CSrem key ms => S (Spec.srem key ms) key
-  | CSpop key n => S (Spec.spop key n) key
-  | CSclear key => S (Spec.sclear key) key
+  | CSadd key ms => S (sW (Spec.sadd key ms)) key
+  | CSrem key ms => S (sW (Spec.srem key ms)) key
+  | CSpop key n => S (sW (Spec.spop key n)) key
+  | CSclear key => S (sW (Spec.sclear key)) key
   | QScard key => sq key (Spec.scard key)
   | QSismember key m => sq key (Spec.sismember key m)
   | QSmembers key => sq key (Spec.smembers key)
   | QSrandmember key n => sq key (Spec.srandmember key n)
   | QSkeyexist key => sq key (Spec.skeyexist key)
-  | CZ key zc => let '(m, r) := aupd [] key (SpecZ.zstep key zc) (s_zset s) in
-                 (Build_sstate (s_hash s) (s_set s) m (s_list s) (s_kv s), r)
-  | QZ key q => (s, SpecZ.zquery key q (alook [] key (s_zset s)))
-  | CL key lc => let '(m, r) := aupd [] key (SpecL.lstep key lc) (s_list s) in
-                 (Build_sstate (s_hash s) (s_set s) (s_zset s) m (s_kv s), r)
-  | QL key q => (s, SpecL.lquery key q (alook [] key (s_list s)))
-  | CK kc => let '(m, r) := SpecK.kstep kc (s_kv s) in
+  | CZ key zc => Z (swrite compact ts (SpecZ.zstep key zc)) key
+  | QZ key q => (s, SpecZ.zquery key q (sview compact now (alook (x0 []) key (s_zset s))))
+  | CL key lc => L (swrite compact ts (SpecL.lstep key lc)) key
+  | QL key q => (s, SpecL.lquery key q (sview compact now (alook (x0 []) key (s_list s))))
+  | CK kc => let '(m, r) := SpecK.kstep compact ts kc (s_kv s) in
              (Build_sstate (s_hash s) (s_set s) (s_zset s) (s_list s) m, r)
-  | QK q => (s, SpecK.kquery q (s_kv s))
+  | QK q => (s, SpecK.kquery compact now q (s_kv s))
   end.
 
 (* ---------- argument parsing (what the handlers do with cmd.Args) ---------- *)
@@ -160,6 +253,29 @@ Definition parse_cmd (args : list bytes) : option cmd :=
   match args with
   | name :: key :: rest =>
       let n := lower_bytes name in
+      let ct (t : ctype) (suffix : bytes) : option (option cmd) :=
+        (* "expire" (strconv.Atoi of the duration) / "persist" / "ttl" after the type letter *)
+        if is suffix [101;120;112;105;114;101] then
+          match rest with
+          | [d] => Some (Some (match parse_int64 d with Some z => CExpire t key z | None => CTinvalid end))
+          | _ => Some None
+          end
+        else if is suffix [112;101;114;115;105;115;116] then
+          match rest with [] => Some (Some (CPersist t key)) | _ => Some None end
+        else if is suffix [116;116;108] then
+          match rest with [] => Some (Some (QTtl t key)) | _ => Some None end
+        else None in
+      let typed : option (option cmd) :=
+        match n with
+        | 104 :: suffix => ct TH suffix
+        | 115 :: suffix => ct TS suffix
+        | 122 :: suffix => ct TZ suffix
+        | 108 :: suffix => ct TL suffix
+        | _ => None
+        end in
+      match typed with
+      | Some r => r
+      | None =>
       (* hash *)
       if is n [104;115;101;116] then match rest with [f; x] => Some (CHset false key f x) | _ => None end
       else if is n [104;115;101;116;110;120] then match rest with [f; x] => Some (CHset true key f x) | _ => None end
@@ -212,6 +328,7 @@ Definition parse_cmd (args : list bytes) : option cmd :=
             end
           end
         end
+      end
   | _ => None
   end.
 
@@ -229,30 +346,33 @@ Definition observe_with {S} (step : cmd -> S -> S * reply) (t : N) (key : bytes)
   if (t =? 72)%N then (* H *)
     let all := q (QHgetall key) in
     [ [q (QHlen key)]; [q (QHkeyexist key)]; [all]; [q (QHkeys key)]; [q (QHvals key)];
-      map (fun f => q (QHget key (bulk_of f))) (evens (elems_of all)); [RInt (-1)] ]
+      map (fun f => q (QHget key (bulk_of f))) (evens (elems_of all)); [q (QTtl TH key)] ]
   else if (t =? 83)%N then (* S *)
     let mem := q (QSmembers key) in
     [ [q (QScard key)]; [q (QSkeyexist key)]; [mem];
-      map (fun m => q (QSismember key (bulk_of m))) (elems_of mem); [RInt (-1)] ]
+      map (fun m => q (QSismember key (bulk_of m))) (elems_of mem); [q (QTtl TS key)] ]
   else if (t =? 90)%N then (* Z *)
     let rg := q (QZ key (ZQrange false 0 (-1) false)) in
     [ [q (QZ key ZQcard)]; [q (QZ key ZQkeyexist)];
       [q (QZ key (ZQrange false 0 (-1) true))];
       [q (QZ key (ZQrangebyscore false (SNInf, false) (SPInf, false) true 0 (-1)))];
       [q (QZ key (ZQrangebylex None None false false 0 (-1)))];
-      map (fun m => q (QZ key (ZQscore (bulk_of m)))) (elems_of rg); [RInt (-1)] ]
+      map (fun m => q (QZ key (ZQscore (bulk_of m)))) (elems_of rg); [q (QTtl TZ key)] ]
   else if (t =? 76)%N then (* L *)
     let rg := q (QL key (LQrange 0 (-1))) in
     [ [q (QL key LQlen)]; [q (QL key LQkeyexist)]; [rg];
-      map (fun i => q (QL key (LQindex (Z.of_nat i)))) (seq 0 (length (elems_of rg))); [RInt (-1)] ]
+      map (fun i => q (QL key (LQindex (Z.of_nat i)))) (seq 0 (length (elems_of rg))); [q (QTtl TL key)] ]
   else (* K *)
-    [ [q (QK (KQget key))]; [q (QK (KQstrlen key))]; [q (QK (KQexists [key]))]; [RInt (-1)] ].
+    [ [q (QK (KQget key))]; [q (QK (KQstrlen key))]; [q (QK (KQexists [key]))]; [q (QK (KQttl key))] ].
 
-Definition map_observe (t : N) (key : bytes) (s : mstate) := observe_with (map_step false 0) t key s.
-Definition spec_observe (t : N) (key : bytes) (s : sstate) := observe_with spec_step t key s.
+Definition map_observe (compact : bool) (now : Z) (t : N) (key : bytes) (s : mstate) :=
+  observe_with (map_step compact now 0) t key s.
+Definition spec_observe (compact : bool) (now : Z) (t : N) (key : bytes) (s : sstate) :=
+  observe_with (spec_step compact now 0) t key s.
 
 (* ---------- running a whole sequence (used by the theorems) ---------- *)
-Definition map_run (compact : bool) (cs : list (Z * cmd)) (s : mstate) : mstate :=
-  fold_left (fun s tc => fst (map_step compact (fst tc) (snd tc) s)) cs s.
-Definition spec_run (cs : list (Z * cmd)) (s : sstate) : sstate :=
-  fold_left (fun s tc => fst (spec_step (snd tc) s)) cs s.
+(* the read clock does not matter for the successor state; reads inside a sequence use `now` *)
+Definition map_run (compact : bool) (now : Z) (cs : list (Z * cmd)) (s : mstate) : mstate :=
+  fold_left (fun s tc => fst (map_step compact now (fst tc) (snd tc) s)) cs s.
+Definition spec_run (compact : bool) (now : Z) (cs : list (Z * cmd)) (s : sstate) : sstate :=
+  fold_left (fun s tc => fst (spec_step compact now (fst tc) (snd tc) s)) cs s.
